@@ -204,6 +204,11 @@ func (tree *ParserT) parseExpression(exec, incLogicalOps bool) error {
 			if err != nil {
 				return err
 			}
+			if branch.charPos < 1 {
+				// nothing follows the opening bracket. Without this check the
+				// parser steps backwards and parses the same bracket forever
+				return raiseError(tree.expression, nil, tree.charPos, "missing closing bracket ')'")
+			}
 
 			if exec {
 				dt, err := branch.executeExpr()
